@@ -611,6 +611,17 @@ def install(lib):
                         z3.And(0 <= r, r < cond.n, c(r), z3.ForAll([jv], z3.Implies(z3.And(0 <= jv, jv < r), z3.Not(c(jv)))))))
         return _ArgWhere(r)
 
+    def np_searchsorted(ex, a, v, side="left", **k):
+        used(ex, "jnp.searchsorted(a, v, side): for a non-decreasing a, the first index whose entry is >= v (side='left') / > v (side='right'), len(a) if none")
+        if not isinstance(a, Arr):
+            raise Unsupported("searchsorted on non-array")
+        r = ex.fresh("searchsorted", INT)
+        jv = z3.Int("j!ss")
+        v = coerce(v, a.sort())
+        before = (lambda t: z3.Select(a.a, t) < v) if side == "left" else (lambda t: z3.Select(a.a, t) <= v)
+        ex.assume(z3.And(0 <= r, r <= a.n, z3.ForAll([jv], z3.Implies(z3.And(0 <= jv, jv < r), before(jv))), z3.Or(r == a.n, z3.Not(before(r)))))
+        return r
+
     def np_ones(ex, shape=(), **k):
         if shape == () or shape == []:
             return 1.0
@@ -635,7 +646,7 @@ def install(lib):
             return axiomatize_max(ex, [], x, "min")
         return x
 
-    common = dict(max=np_amax, min=np_amin, amax=np_amax, amin=np_amin, zeros=np_zeros, interp=np_interp, argwhere=np_argwhere, ones=np_ones, arange=np_arange, array=np_array, asarray=np_asarray, where=np_where, clip=np_clip, roll=np_roll, take=np_take, maximum=np_maximum, minimum=np_minimum,
+    common = dict(searchsorted=np_searchsorted, max=np_amax, min=np_amin, amax=np_amax, amin=np_amin, zeros=np_zeros, interp=np_interp, argwhere=np_argwhere, ones=np_ones, arange=np_arange, array=np_array, asarray=np_asarray, where=np_where, clip=np_clip, roll=np_roll, take=np_take, maximum=np_maximum, minimum=np_minimum,
                   isnan=np_isnan, ceil=np_ceil, floor=np_floor, sqrt=np_sqrt, zeros_like=np_zeros_like, ones_like=np_ones_like,
                   logical_and=np_logical("and"), logical_or=np_logical("or"), logical_not=np_logical_not, exp=np_exp, log=np_log, tanh=np_tanh,
                   arctanh=np_arctanh, abs=b_abs, square=lambda ex, x: ex.binop(ast.Mult(), x, x),
